@@ -55,6 +55,12 @@ func genBlock(r *lib.Rng, frame *int64) drv.Op {
 	if r.Chance(1, 20) {
 		o.First = []int64{0, -5, 1 << 40, 999999999999}[r.Intn(4)]
 	}
+	if r.Chance(1, 3) {
+		o.TickDrop = true
+	}
+	if r.Chance(1, 3) {
+		o.TickExt = true
+	}
 	if r.Chance(1, 6) { // a read that came back without a whole frame: no samples, but the side information counts
 		o.Empty = true
 		if len(o.Ext) == 0 && o.Drops == 0 {
@@ -83,6 +89,7 @@ func genCase(r *lib.Rng, id int64, tier string) drv.Case {
 	}
 	var frame int64
 	active := false // generator's guess only (steers the mix; the harness never relies on it)
+	var lastExt *int64
 	bursts := 0
 	if r.Chance(1, 6) {
 		bursts = r.Range(1, 3) // this history mixes up to 3 long trigger lists with the small ones
@@ -95,7 +102,16 @@ func genCase(r *lib.Rng, id int64, tier string) drv.Case {
 				c.Ops = append(c.Ops, genBurst(r, &frame))
 				bursts--
 			} else {
-				c.Ops = append(c.Ops, genBlock(r, &frame))
+				o := genBlock(r, &frame)
+				// a list that begins with the count the previous list ended with (both must be recorded)
+				if len(o.Ext) > 0 && lastExt != nil && r.Chance(1, 3) {
+					o.Ext[0] = *lastExt
+				}
+				c.Ops = append(c.Ops, o)
+			}
+			if e := c.Ops[len(c.Ops)-1].Ext; len(e) > 0 {
+				v := e[len(e)-1]
+				lastExt = &v
 			}
 		case k < 52:
 			o := drv.GenWC(r, 0, true)
@@ -117,6 +133,15 @@ func genCase(r *lib.Rng, id int64, tier string) drv.Case {
 			c.Ops = append(c.Ops, drv.GenWC(r, 4, true))
 		case k < 84:
 			c.Ops = append(c.Ops, drv.GenWC(r, 5, true))
+		case k < 90 && k >= 84:
+			// a label with a caller-supplied time stamp: hours in the past or in the future, in no particular order
+			off := int64(r.Pick([]int{-7200, -3600, -5400, 3600, 7200, 5400, 86400, -86400})) * 1000000000
+			off += int64(r.Intn(1000))
+			l := drv.GenLabel(r)
+			if r.Chance(1, 10) {
+				l = "two\nlines"
+			}
+			c.Ops = append(c.Ops, drv.Op{Op: "TLABEL", Off: off, Label: l})
 		case k < 97:
 			l := drv.GenLabel(r)
 			if r.Chance(1, 8) {
@@ -142,6 +167,8 @@ func corpus() []drv.Case {
 	blk := func(first int64, drops int, ext ...int64) drv.Op {
 		return drv.Op{Op: "BLK", First: first, Drops: drops, Ext: ext}
 	}
+	tl := func(sec int64, l string) drv.Op { return drv.Op{Op: "TLABEL", Off: sec * 1000000000, Label: l} }
+	tick := func(o drv.Op) drv.Op { o.TickDrop, o.TickExt = true, true; return o }
 	eblk := func(first int64, drops int, ext ...int64) drv.Op {
 		return drv.Op{Op: "BLK", First: first, Drops: drops, Ext: ext, Empty: true}
 	}
@@ -164,6 +191,12 @@ func corpus() []drv.Case {
 		// long external-trigger lists (more than one 4096-byte buffer) mixed with short ones inside one run
 		{Proj: p, Base: 1, Map: -1, Ops: []drv.Op{st, blk(10, 0, 1, 2, 3), blk(20, 0), run(30, 700, 5000), blk(40, 1, 9001, 9002), run(50, 1500, 20000), blk(60, 0, 30001, 30002, 30003, 30004, 30005), wc("STOP"),
 			st, run(70, 513, 40000), wc("STOP"), st, blk(80, 0, 7), run(90, 512, 50000), run(91, 2000, 60000), blk(92, 0, 8), wc("STOP")}},
+		// labels with supplied time stamps that are not monotone (past after future, future before server-stamped ones)
+		{Proj: p, Base: 1, Map: -1, Ops: []drv.Op{tl(3600, "ahead"), st, lb("A"), tl(-3600, "stale"), lb("B"), tl(7200, "ahead"), lb("C"), tl(3600, "less ahead"), wc("UNPAUSE D"), wc("STOP"),
+			st, tl(-1, "x"), wc("STOP")}},
+		// a list whose first count repeats the last count of the previous list; flush ticks due at dropping blocks
+		{Proj: p, Base: 1, Map: -1, Ops: []drv.Op{st, blk(10, 0, 5, 6, 7), blk(20, 0, 7, 8), blk(30, 0), blk(40, 0, 8), tick(blk(50, 3, 8, 8)), wc("STOP"),
+			st, tick(blk(60, 2)), tick(blk(70, 1, 9)), blk(80, 4), wc("STOP")}},
 		// blocks without samples still deliver their external-trigger counts and drop reports
 		{Proj: p, Base: 1, Map: -1, Ops: []drv.Op{st, blk(10, 0, 11, 22), eblk(20, 0, 33, 44), blk(30, 0, 55), eblk(40, 7), eblk(50, 0), eblk(60, 2, 66), wc("STOP"),
 			eblk(70, 3, 77), st, eblk(80, 1, 88), wc("STOP")}},
@@ -216,7 +249,11 @@ func filesTerm(f *drv.SideFiles) string {
 	if f.StatePresent {
 		it := make([]string, len(f.Labels))
 		for i, l := range f.Labels {
-			it[i] = drv.StrTerm(l)
+			st := int64(0)
+			if i < len(f.Stamps) {
+				st = f.Stamps[i]
+			}
+			it[i] = fmt.Sprintf("(%s,%s)", lib.Z(st), drv.StrTerm(l))
 		}
 		state = "(Some " + lib.List(it) + ")"
 	}
@@ -314,6 +351,21 @@ ops:
 				}
 			}
 			outs = append(outs, stepOut{Op: o.Op, OK: ob.OK, Err: ob.Err, Files: files})
+		case "TLABEL":
+			act := s.Reported().Active
+			ok := s.TLabel(o)
+			terms = append(terms, fmt.Sprintf("Tq %s %s %s", lib.Z(o.Off), drv.StrTerm(o.Label), lib.B(ok)))
+			outs = append(outs, stepOut{Op: "TLABEL", OK: ok})
+			if ok {
+				spanEvents = true
+				if o.Off < 0 {
+					tags["label-stamped-in-the-past"] = true
+				} else {
+					tags["label-stamped-in-the-future"] = true
+				}
+			} else if !act {
+				eventsOutside = true
+			}
 		case "PUB":
 			s.Pub(o)
 			terms = append(terms, fmt.Sprintf("Pq %d %d", o.Ch, o.N))
@@ -323,6 +375,9 @@ ops:
 			es := s.Blk(o)
 			terms = append(terms, fmt.Sprintf("Bq %s %s %s %s", drv.CompactZList(o.Ext), lib.Z(int64(o.Drops)), lib.Z(o.First), lib.B(es != "")))
 			outs = append(outs, stepOut{Op: "BLK", OK: es == "", Err: es})
+			if o.TickDrop && act && o.Drops > 0 {
+				tags["drop-at-flush-tick"] = true
+			}
 			if o.Empty && act && (len(o.Ext) > 0 || o.Drops > 0) {
 				tags["empty-block-with-events"] = true
 			}
